@@ -165,7 +165,7 @@ def special_glyphs():
     return glyphs
 
 
-WIDTH_INFO = [(None, None), (500, 0), (500, 600), (0, 500), (123, 123), (1001, -100), (500, 499.5),
+WIDTH_INFO = [(None, None), (500, 0), (500, 600), (0, 500), (123, 123), (1001, -100), (500, 499.5), (499.5, 600.5),
               (None, 600), (600, None)]
 
 
@@ -400,7 +400,7 @@ class C12(Property):
                        ("two", "mixed", 3), ("offstart", "shared", 3)],
                     "palette": B.QUICK_TRANSFORMS,
                     "dev_singles": ["tri", "cubic", "quad", "mixed", "two", "offstart"],
-                    "dev_pairs": ["tri"], "width_info": WIDTH_INFO[:6], "modules": ["ufoLib2"]}
+                    "dev_pairs": ["tri"], "width_info": WIDTH_INFO[:8], "modules": ["ufoLib2"]}
         return {"depth": 0, "tols": TOLS,
                 "tries": [(s, v, 3) for s in B.SHAPES if s != "large" for v in ("pure", "mixed", "shared")],
                 "palette": B.QUICK_TRANSFORMS,
